@@ -3,6 +3,7 @@ package c13
 import (
 	"context"
 	"fmt"
+	"path/filepath"
 	"strings"
 
 	ros "github.com/risor-io/risor/os"
@@ -38,6 +39,10 @@ func alphabetD() []stepD {
 	for _, d := range []string{"/", "/tmp", "/a", "/a/b", "/tmpfoo"} {
 		out = append(out, stepD{"Chdir", d, ""})
 	}
+	// relative directories: the new working directory is the old one composed with the argument
+	for _, d := range []string{"a", "b", "..", "tmp", "./a/", "../tmp"} {
+		out = append(out, stepD{"Chdir", d, ""})
+	}
 	return out
 }
 
@@ -53,7 +58,11 @@ func runD(ms []string, steps []stepD, verbose bool) (sig, what string) {
 	for i, s := range steps {
 		if s.Op == "Chdir" {
 			vos.Chdir(s.P)
-			cwd = s.P
+			if filepath.IsAbs(s.P) {
+				cwd = s.P
+			} else {
+				cwd = filepath.Join(cwd, s.P)
+			}
 			continue
 		}
 		log = log[:0]
